@@ -96,20 +96,36 @@ func (e *Env) requireStore(rule string, fn *ssa.Function, addrPat, valPat, what 
 	}
 	name := load.FuncName(fn)
 	n := 0
-	for _, b := range fn.Blocks {
-		for _, in := range b.Instrs {
-			st, ok := in.(*ssa.Store)
-			if !ok || !prov.Match(addrPat, prov.Of(st.Addr)) {
-				continue
+	type unit struct {
+		f    *ssa.Function
+		call *ssa.Call
+	}
+	units := []unit{{fn, nil}}
+	for _, c := range unknownHelperCalls(e, fn) {
+		units = append(units, unit{c.Call.StaticCallee(), c})
+	}
+	for _, u := range units {
+		if u.call != nil {
+			prov.PushSubst(u.f, &u.call.Call)
+		}
+		for _, b := range u.f.Blocks {
+			for _, in := range b.Instrs {
+				st, ok := in.(*ssa.Store)
+				if !ok || !prov.Match(addrPat, prov.Of(st.Addr)) {
+					continue
+				}
+				n++
+				key := fmt.Sprintf("%s:store(%s)#%d", name, addrPat, n)
+				v := prov.Of(st.Val)
+				if prov.Match(valPat, v) {
+					e.R.OK(rule, key, e.P.InstrPos(in), what)
+				} else {
+					e.R.Fail(rule, key, e.P.InstrPos(in), "stored value is not "+what, "got  "+v, "want "+valPat)
+				}
 			}
-			n++
-			key := fmt.Sprintf("%s:store(%s)#%d", name, addrPat, n)
-			v := prov.Of(st.Val)
-			if prov.Match(valPat, v) {
-				e.R.OK(rule, key, e.P.InstrPos(in), what)
-			} else {
-				e.R.Fail(rule, key, e.P.InstrPos(in), "stored value is not "+what, "got  "+v, "want "+valPat)
-			}
+		}
+		if u.call != nil {
+			prov.PopSubst()
 		}
 	}
 	if n == 0 {
@@ -172,6 +188,20 @@ func forAllIterationsFrom(e *Env, rule string, fn *ssa.Function, overPat string,
 	name := load.FuncName(fn)
 	loops := loopsOver(fn, overPat)
 	if len(loops) == 0 {
+		// the loop moved into a new helper: the same requirement there, with the
+		// helper's parameters standing for the arguments of the call
+		for _, c := range unknownHelperCalls(e, fn) {
+			h := c.Call.StaticCallee()
+			prov.PushSubst(h, &c.Call)
+			found := len(loopsOver(h, overPat)) > 0
+			if found {
+				forAllIterationsFrom(e, rule, h, overPat, cfg, g, maxStart)
+			}
+			prov.PopSubst()
+			if found {
+				return
+			}
+		}
 		e.R.Undecided(rule, name+":forall("+overPat+"):"+g.Key, e.P.Pos(fn.Pos()), "no range loop over "+overPat+" found")
 		return
 	}
@@ -245,25 +275,27 @@ func (e *Env) dominatedByGates(rule string, fn *ssa.Function, cfg gcfg, calleePa
 	stop := map[*ssa.BasicBlock]bool{}
 	for _, b := range fn.Blocks {
 		for _, in := range b.Instrs {
-			c, ok := in.(ssa.CallInstruction)
-			if !ok || !prov.Match(calleePat, prov.CalleeName(c.Common())) {
-				continue
-			}
-			var args []ssa.Value
-			if c.Common().IsInvoke() {
-				args = append(args, c.Common().Value)
-			}
-			args = append(args, c.Common().Args...)
-			match := true
-			for i, p := range argPats {
-				if p == "" {
-					continue
+			isSite := func(in ssa.Instruction) bool {
+				c, ok := in.(ssa.CallInstruction)
+				if !ok || !prov.Match(calleePat, prov.CalleeName(c.Common())) {
+					return false
 				}
-				if i >= len(args) || !prov.Match(p, prov.Of(args[i])) {
-					match = false
+				var args []ssa.Value
+				if c.Common().IsInvoke() {
+					args = append(args, c.Common().Value)
 				}
+				args = append(args, c.Common().Args...)
+				for i, p := range argPats {
+					if p == "" {
+						continue
+					}
+					if i >= len(args) || !prov.Match(p, prov.Of(args[i])) {
+						return false
+					}
+				}
+				return true
 			}
-			if match {
+			if isSite(in) || instrInHelper(e, in, isSite, 0) {
 				stop[b] = true
 			}
 		}
@@ -469,7 +501,9 @@ func (e *Env) gatesBefore(rule string, fn *ssa.Function, cfg gcfg, label string,
 	n := 0
 	for _, b := range fn.Blocks {
 		for _, in := range b.Instrs {
-			if !match(in) {
+			// the instruction itself, or a call to a new helper that contains it: the
+			// gates are then required in front of that call
+			if !match(in) && !instrInHelper(e, in, match, 0) {
 				continue
 			}
 			n++
@@ -753,4 +787,47 @@ func helperOrder(e *Env, in ssa.Instruction, g1, g2 gate.Gate) bool {
 		}
 	}
 	return true
+}
+
+// unknownHelperCalls: the calls in fn to module functions that the rule tables
+// do not know (code moved into a new helper).
+func unknownHelperCalls(e *Env, fn *ssa.Function) []*ssa.Call {
+	var out []*ssa.Call
+	for _, b := range fn.Blocks {
+		for _, in := range b.Instrs {
+			c, ok := in.(*ssa.Call)
+			if !ok {
+				continue
+			}
+			h := c.Call.StaticCallee()
+			if h == nil || h.Blocks == nil || !e.P.InModule(h) || prov.KnownFunction(h) || len(c.Call.Args) != len(h.Params) {
+				continue
+			}
+			out = append(out, c)
+		}
+	}
+	return out
+}
+
+// instrInHelper: in is a call to an unknown helper that (with its parameters
+// standing for the arguments) contains an instruction accepted by match.
+func instrInHelper(e *Env, in ssa.Instruction, match func(ssa.Instruction) bool, depth int) bool {
+	c, ok := in.(*ssa.Call)
+	if !ok || depth > 1 {
+		return false
+	}
+	h := c.Call.StaticCallee()
+	if h == nil || h.Blocks == nil || !e.P.InModule(h) || prov.KnownFunction(h) || len(c.Call.Args) != len(h.Params) {
+		return false
+	}
+	prov.PushSubst(h, &c.Call)
+	defer prov.PopSubst()
+	for _, b := range h.Blocks {
+		for _, i2 := range b.Instrs {
+			if match(i2) || instrInHelper(e, i2, match, depth+1) {
+				return true
+			}
+		}
+	}
+	return false
 }
